@@ -10,7 +10,7 @@ CHECKS = {
          "Trusts the harness' reference expander (unit-tested against R7RS examples in mwv-core). Unequal ellipsis lengths under one template ellipsis are excluded as the statement says. Input goes to Vm::eval as data, not through the reader.",
          "DESIGN.md section 4, C17"),
  "C01": ("differential against a reference interpreter over proptest-driven typed program generation (choice sequences), plus metamorphic re-runs in a second fresh VM and in a polluted VM",
-         "Sessions of 1-8 top-level forms from a typed, scope-aware generator covering every core and derived form of the statement in combination are evaluated by an independent reference interpreter (CEK machine written from R7RS, hygienic desugaring) and by three VM instances; values, failures and output order are compared form by form with a strict structural equality. Exploration: 24k sessions quick / 400k thorough, shrunk to a minimal program on failure.",
+         "Sessions of 1-8 top-level forms from a typed, scope-aware generator covering every core and derived form of the statement in combination are evaluated by an independent reference interpreter (CEK machine written from R7RS, hygienic desugaring) and by three VM instances; values, failures and output order are compared form by form with a strict structural equality. A second generator produces activation histories: instances of a maker procedure (formals (), (a), (a . r), r; state in internal definitions / let / parameters) are created and operated on in a random interleaving, and a recursive procedure reads its own internal definition after the recursive call returned. Exploration: 25k sessions quick / 400k thorough, shrunk to a minimal program on failure.",
          "Trusts the reference interpreter (unit-tested, shares no code with the SUT); only left-to-right operand order is assumed; failure messages are not compared; programs never rebind standard names; known deviations are matched by syntactic signature and generated at probe rate only.",
          "DESIGN.md section 4, C01"),
  "C02": ("exhaustive enumeration of scope skeletons (odometer over the decoder's decision tree) + proptest-driven random skeletons beyond the bound, differential against the reference interpreter's environment model",
@@ -22,11 +22,11 @@ CHECKS = {
          "Forced collections use the verif hook (pretend-full flag around the real run_gc); reachability is the harness' own traversal of raw VM state; with a collection per instruction invariants are checked on the first 64 collections and every 4th thereafter.",
          "DESIGN.md section 4, C03"),
  "C04": ("grid enumeration + proptest-driven random compositions of tail contexts, oracle = stack high-water hook at n=10/10^3/10^5 plus closed-form value and non-tail twin",
-         "Every single tail context (27) x caller arity 0..4 x callee arity 0..4 x rest flags, self and 2-procedure mutual recursion, is run at n=10 and n=10^3 (a deterministic sample also at 10^5); random compositions of depth 1-3 over 1-3 procedures. The stack high-water mark at 10^3/10^5 must be within 16 slots of the one at n=10, the value must equal the closed form and the non-tail twin.",
+         "Every single tail context (32, incl. contexts inside a datum handed to eval) x caller arity 0..4 x callee arity 0..4 x rest flags, self and 2-procedure mutual recursion, is run at n=10 and n=10^3 (a deterministic sample also at 10^5); random compositions of depth 1-3 over 1-3 procedures. The stack high-water mark at 10^3/10^5 must be within 16 slots of the one at n=10, the value must equal the closed form and the non-tail twin.",
          "Stack high-water = maximum of sp over pushes and instruction boundaries (verif hook). n is sampled at three points, not proved for all n; the threshold is >2 orders of magnitude away from the failing behaviour (>= 4 slots per iteration).",
          "DESIGN.md section 4, C04"),
  "C05": ("differential against a reference interpreter with persistent multi-shot continuations over proptest-driven typed program generation with call/cc productions",
-         "Sessions with call/cc at operand, tail and nested positions; continuations escape, return normally, are stored in globals and re-entered 0-3 times (counter-guarded) from the same form, from procedures, loops, for-each callbacks and later top-level forms. Values, failures and output are compared form by form with the reference interpreter in three VMs.",
+         "Sessions with call/cc at operand, tail and nested positions; continuations escape, return normally, are stored in globals and re-entered 0-3 times (counter-guarded) from the same form, from procedures, loops, for-each callbacks and later top-level forms. Deep captures (up to 600 pending calls) are re-entered from later shallow and deep forms and after a failed evaluation. Values, failures and output are compared form by form with the reference interpreter in four VMs (fresh, second fresh, polluted, and one with collections forced at pseudo-random instructions and after every form).",
          "Trusts the reference interpreter's continuation model (REPL semantics for the bottom frame, pinned by the suite). Continuations receive exactly one value; map callbacks neither capture nor invoke continuations.",
          "DESIGN.md section 4, C05"),
  "C06": ("exhaustive / sampled enumeration of single calls (every global procedure of the running Vm x arity 0..5 x a palette of boundary values of every kind) and proptest-driven text generators (random Unicode, token soup, mutated corpus programs, an evaluation-oriented soup) against a totality oracle: no panic (catch_unwind + hook), no abort or stall (journal + watchdog, instruction budgets), every Err renders, every value renders in display and write mode, the same Vm then evaluates canary forms correctly",
@@ -34,7 +34,7 @@ CHECKS = {
          "Allocation sizes and exponents are bounded as in the statement (make-vector / make-string sizes <= 10^6, and size x container fill <= 10^6; expt exponents <= 10^6, <= 1000 for integer bases of magnitude > 2). Exhausting the 200000-instruction budget counts as a failure only in the structured domain, whose programs are single calls on small finite data with terminating argument procedures; in the text domain budget exhaustion, stalls, allocation failures and a diverging macro expansion (texts containing syntax-rules are evaluated in a forked child) are never failures, and texts nesting deeper than 64 are discarded. After a text that defines or assigns, only a constant is used as canary. Only the checked build profile is run (arithmetic overflow panics).",
          "DESIGN.md section 4, C06; section 3.3"),
  "C12": ("parameterised garbage-loop templates (one per allocation kind) x live-set size x n vs 10n, oracle = plateau of heap/stack capacity (hooks) and process live bytes (counting allocator) + exactness of every collection against an independent reachability traversal",
-         "20 templates (15 in-VM loops, 5 harness-driven sequences of top-level evaluations) x live set {0,10,1000} are run for n and 10n iterations (quick n=20000, thorough 200000); heap capacity, stack capacity and live bytes after 10n must be <= 1.5x those after n plus a fixed slack, the live set's checksum must be intact, and after every collection no cell unreachable by the harness' own traversal may remain allocated.",
+         "22 templates (16 in-VM loops incl. checkpoint continuations handed to a recording helper, 6 harness-driven sequences of top-level evaluations incl. evaluations that fail at compile time) x live set {0,10,1000} are run for n and 10n iterations (quick n=20000, thorough 200000); heap capacity, stack capacity and live bytes after 10n must be <= 1.5x those after n plus a fixed slack, the live set's checksum must be intact, and after every collection no cell unreachable by the harness' own traversal may remain allocated (a saved stack counts as a root only up to its saved sp).",
          "Growth is decided at two sizes with a threshold that a one-cell-per-iteration leak exceeds several times over; live bytes come from a counting global allocator of the harness process.",
          "DESIGN.md section 4, C12"),
  "C13": ("differential (uninterrupted vs sliced run of the same build) over generated sessions x generated budget sequences, with progress invariants from the instruction-counter hook",
@@ -50,7 +50,7 @@ CHECKS = {
          "Which texts are errors is not asserted. Datum extents come from the harness' parser over the scanner's token types; for well-formed texts cut points and expected remaining offsets are the generator's own. A hang would be attributed by an in-worker watchdog and counts as a violation.",
          "DESIGN.md section 4, C11"),
  "C07": ("fault injection into proptest-generated sessions (failing forms of every kind at every depth, repeated), differential against the reference interpreter and against a fresh VM that performed only the completed effects; resource ladder via the stack/heap hooks",
-         "Sessions from the program generator get 1-4 injected failing forms (7 run-time error kinds at call depth 0..200, inside/outside a call/cc receiver, after 0-2 completed effects; bad syntax; unbalanced text; repetition up to 12x). Every later form is compared with the reference interpreter; the stack trace of a failing form is compared with its trace in a fresh VM that only performed the completed effects; sp must return to its fresh value; a ladder of k in {1,2,10,100(,1000)} consecutive failures x depth x kind must not grow sp, stack capacity, trace length or live heap.",
+         "Sessions from the program generator get 1-4 injected failing forms (7 run-time error kinds at call depth 0..200, inside/outside a call/cc receiver, after 0-2 completed effects; bad syntax; unbalanced text; repetition up to 12x); in half of the sessions a continuation captured under 10-300 pending calls is re-entered after every failure. Every later form is compared with the reference interpreter; last_stacktrace() after a failing form (run-time, compile-time or read error) is compared with the one in a fresh VM that only performed the completed effects; sp must return to its fresh value; a ladder of k in {1,2,10,100(,1000)} consecutive failures x depth x kind (run-time kinds, and compile-time failures that have already allocated; those up to 5000) must not grow sp, stack capacity, trace length or live heap.",
          "Failing forms are built so that their completed-effects prefix is known by construction. Live heap is measured after a forced collection.",
          "DESIGN.md section 4, C07"),
  "C08": ("boundary-value grid + proptest-driven palette operands in every internal representation against exact BigRational arithmetic (reference model), plus a metamorphic relation (same mathematical operands, different representation => same answer)",
